@@ -230,6 +230,9 @@ pub enum Body {
     FileLimit(u64),
     /// `store` over an existing file that is `extra` bytes longer than the stream
     Overwrite(usize),
+    /// `store` to a scratch file while the simulator scripts the kernel's answers to write(2)
+    /// (one code per call: 0 ok, 1 EINTR, 2 ENOSPC, 3 EIO, 4 returns 0, 16+n accept at most n+1 bytes)
+    KernelWrites(Vec<u8>),
     /// run every body of the unit, then drop the source value with the tracker armed
     DropAfterAll,
 }
@@ -401,6 +404,7 @@ fn exec_store<T: Target>(p: &Prepared<T>, body: &Body, scratch: &Path, ctx_count
     let len = p.b.len();
     let path = scratch.join("c13.bin");
     let _ = std::fs::remove_file(&path);
+    let mut kstats: Option<(u32, u32, usize)> = None;
     tracker::arm();
     let (res, expect_file): (Result<ser::Result<()>, String>, Option<Vec<u8>>) = match body {
         Body::DevFull => (catch(|| tracker::in_lib(|| p.v.store(Path::new("/dev/full")))), None),
@@ -414,6 +418,15 @@ fn exec_store<T: Target>(p: &Prepared<T>, body: &Body, scratch: &Path, ctx_count
         Body::Overwrite(extra) => {
             std::fs::write(&path, vec![0xEEu8; len + extra]).map_err(|e| Violation::new("C13/harness", e.to_string()))?;
             (catch(|| tracker::in_lib(|| p.v.store(&path))), Some(p.b.clone()))
+        }
+        Body::KernelWrites(script) => {
+            let r = {
+                let _s = crate::sys::store_enter(script);
+                catch(|| tracker::in_lib(|| p.v.store(&path)))
+            };
+            let (_calls, faults, terminal, accepted) = crate::sys::store_stats();
+            kstats = Some((faults, terminal, accepted));
+            (r, Some(p.b[..accepted.min(len)].to_vec()))
         }
         Body::Sim { .. } | Body::DropAfterAll => unreachable!(),
     };
@@ -449,6 +462,21 @@ fn exec_store<T: Target>(p: &Prepared<T>, body: &Body, scratch: &Path, ctx_count
             }
         }
         Body::Overwrite(_) => "ok",
+        Body::KernelWrites(_) => {
+            let (faults, terminal, accepted) = kstats.unwrap_or((0, 0, 0));
+            if faults > terminal {
+                ctx_counts.push("fault.kernel_short_write_or_EINTR".into());
+            }
+            if terminal > 0 {
+                ctx_counts.push("fault.kernel_write_errno".into());
+                if accepted > 0 && accepted < len {
+                    ctx_counts.push("probe.kernel_fault_mid_stream".into());
+                }
+                "write-error"
+            } else {
+                "ok"
+            }
+        }
         Body::Sim { .. } | Body::DropAfterAll => unreachable!(),
     };
     if outcome != expected {
@@ -472,7 +500,8 @@ fn exec_store<T: Target>(p: &Prepared<T>, body: &Body, scratch: &Path, ctx_count
     }
     let mut h = Fnv::new();
     h.str(outcome).str(&what);
-    Ok(Info { digest: h.get(), fired_any: expected != "ok", steps: 1, fired: vec![], outcome })
+    let fired_any = expected != "ok" || kstats.map(|k| k.0 > 0).unwrap_or(false);
+    Ok(Info { digest: h.get(), fired_any, steps: 1, fired: vec![], outcome })
 }
 
 fn exec_body<T: Target>(p: &Prepared<T>, body: &Body, scratch: &Path, counts: &mut Vec<String>) -> Result<Info, Violation> {
@@ -588,6 +617,29 @@ fn bodies(seed: u64, target: &str, vi: u64, len: usize, tier: Tier) -> Vec<Body>
     };
     for _ in 0..nlim {
         out.push(Body::FileLimit(r.below(len as u64)));
+    }
+    // scripted kernel answers to the buffered writer inside store(): the BufWriter (8 KiB) issues one
+    // write(2) per flush, so short writes split the stream at arbitrary positions
+    let nk = match tier {
+        Tier::Quick => 12,
+        Tier::Thorough => 40,
+    };
+    for _ in 0..nk {
+        let n = r.range(1, 8) as usize;
+        let mut s: Vec<u8> = Vec::new();
+        let mut terminal = false;
+        for _ in 0..n {
+            let c = match r.below(10) {
+                0 | 1 => 1u8,                                   // EINTR
+                2..=5 => 16 + r.below(200) as u8,               // short write of 1..=200 bytes
+                6 if !terminal => { terminal = true; 2 }        // ENOSPC
+                7 if !terminal => { terminal = true; 3 }        // EIO
+                8 if !terminal => { terminal = true; 4 }        // write returns 0
+                _ => 0,
+            };
+            s.push(c);
+        }
+        out.push(Body::KernelWrites(s));
     }
     out
 }
@@ -813,6 +865,20 @@ pub fn shrink(case: &serde_json::Value) -> Vec<serde_json::Value> {
                     s.steps[i] = Step::Until(k - 1);
                     out.push(Case { body: Body::Sim { api: *api, sink: *sink, script: s }, ..c.clone() });
                 }
+            }
+        }
+    }
+    if let Body::KernelWrites(s) = &c.body {
+        for i in 0..s.len() {
+            let mut t = s.clone();
+            t.remove(i);
+            out.push(Case { body: Body::KernelWrites(t), ..c.clone() });
+        }
+        for i in 0..s.len() {
+            if s[i] > 16 {
+                let mut t = s.clone();
+                t[i] = 16 + (s[i] - 16) / 2;
+                out.push(Case { body: Body::KernelWrites(t), ..c.clone() });
             }
         }
     }
